@@ -41,7 +41,7 @@ theorem logCond_false_of_name {s : State} {q : Query} (h : nameIgnoredLog s.conf
   simp [logCond, shouldLog, qlogShouldLog, h]
 
 theorem logCond_false_of_client {s : State} {q : Query}
-    (h : fromIgnoredLog s.conf q.cid (canon q.addr) = true) : logCond s q = false := by
+    (h : fromIgnoredLog s.conf q.cid (canon q.addr) q.zone = true) : logCond s q = false := by
   have := fromIgnoredLog_findMultiple h
   simp [logCond, shouldLog, qlogShouldLog, queryIDs_eq, this]
 
@@ -50,9 +50,9 @@ theorem countCond_false_of_name {s : State} {q : Query} (h : nameIgnoredStat s.c
   unfold nameIgnoredStat at h
   simp [countCond, shouldCount, h]
 
-theorem countCond_false_of_client {s : State} {q : Query}
-    (h : fromIgnoredStat s.conf q.cid (canon q.addr) = true) : countCond s q = false := by
-  have := fromIgnoredStat_shouldCount h
+theorem countCond_false_of_client {s : State} {q : Query} (hz : ZoneOK s.conf)
+    (h : fromIgnoredStat s.conf q.cid (canon q.addr) q.zone = true) : countCond s q = false := by
+  have := fromIgnoredStat_shouldCount hz h
   simp [countCond, shouldCount, queryIDs_eq, this]
 
 /-! ## The stored-address invariant -/
@@ -111,13 +111,92 @@ theorem Inv_step {s : State} (hi : Inv s) (op : Op) (hv : op.valid = true) : Inv
     cases rmClient s.conf.clients n <;> exact hi
   | search => exact hi
   | stats => exact hi
+  | tick => exact hi
+  | restart =>
+    simp only [step, flush]
+    intro e he
+    simp only [List.append_nil, List.nil_append, List.mem_append] at he
+    rcases he with he | he
+    · exact hi e (List.mem_append_right _ he)
+    · exact hi e (List.mem_append_left _ he)
+  | rotate =>
+    simp only [step]
+    by_cases hr : s.rotated = true
+    · simp only [hr, if_true]; exact hi
+    · simp only [hr]
+      by_cases hf : s.file.isEmpty = true
+      · simp only [hf, if_true]; exact hi
+      · simp only [hf]; exact hi
+
+theorem zips_nil_setFlags {cs cs' : List PClient} {n : Bytes} {lg st : Bool}
+    (h : ∀ p ∈ cs, p.zips = []) (hs : setFlags cs n lg st = some cs') : ∀ p ∈ cs', p.zips = [] := by
+  unfold setFlags at hs
+  cases hf : cs.find? (·.name == n) with
+  | none => rw [hf] at hs; cases hs
+  | some p0 =>
+    rw [hf] at hs
+    simp only [Option.some.injEq] at hs
+    subst hs
+    intro p hp
+    rcases List.mem_append.mp hp with hp | hp
+    · exact h p (List.mem_filter.mp hp).1
+    · simp only [List.mem_singleton] at hp
+      subst hp
+      exact h p0 (List.mem_of_find?_eq_some hf)
+
+theorem zips_nil_rmClient {cs cs' : List PClient} {n : Bytes}
+    (h : ∀ p ∈ cs, p.zips = []) (hs : rmClient cs n = some cs') : ∀ p ∈ cs', p.zips = [] := by
+  unfold rmClient at hs
+  by_cases ha : cs.any (·.name == n) = true
+  · rw [if_pos ha] at hs
+    simp only [Option.some.injEq] at hs
+    subst hs
+    intro p hp
+    exact h p (List.mem_filter.mp hp).1
+  · rw [if_neg ha] at hs; cases hs
+
+/-- No operation of a history takes the repair away or configures a zoned address. -/
+theorem ZoneOK_step {s : State} (hz : ZoneOK s.conf) (op : Op) : ZoneOK (step s op).1.conf := by
+  cases op with
+  | query q => simp only [step, processQuery_eq]; exact hz
+  | flush => exact hz
+  | qlogConf en an ign => exact hz
+  | statsConf en ign => exact hz
+  | setFlags n lg st =>
+    simp only [step]
+    cases hs : setFlags s.conf.clients n lg st with
+    | none => exact hz
+    | some cs =>
+      rcases hz with hz | hz
+      · exact Or.inl hz
+      · exact Or.inr (zips_nil_setFlags hz hs)
+  | rmClient n =>
+    simp only [step]
+    cases hs : rmClient s.conf.clients n with
+    | none => exact hz
+    | some cs =>
+      rcases hz with hz | hz
+      · exact Or.inl hz
+      · exact Or.inr (zips_nil_rmClient hz hs)
+  | search => exact hz
+  | stats => exact hz
+  | tick => exact hz
+  | restart => exact hz
+  | rotate =>
+    simp only [step]
+    by_cases hr : s.rotated = true
+    · simp only [hr, if_true]; exact hz
+    · simp only [hr]
+      by_cases hf : s.file.isEmpty = true
+      · simp only [hf, if_true]; exact hz
+      · simp only [hf]; exact hz
 
 /-! ## The model's observation satisfies the monitor -/
 
 theorem and_not_ne_true {a b : Bool} (h : a = true → b = true) : ¬ ((a && !b) = true) := by
   cases a <;> cases b <;> simp_all
 
-theorem specQuery_model (s : State) (q : Query) (hq : validAddr q.addr) :
+theorem specQuery_model (s : State) (q : Query) (hq : validAddr q.addr) (hz : ZoneOK s.conf) :
     specQuery s.conf s.shadow q (processQuery s q).mem (processQuery s q).sClients
       (processQuery s q).sDomains = none := by
   rw [processQuery_eq]
@@ -170,7 +249,7 @@ theorem specQuery_model (s : State) (q : Query) (hq : validAddr q.addr) :
   · -- stats-ignored-client
     apply and_not_ne_true
     intro h
-    have := countCond_false_of_client h
+    have := countCond_false_of_client hz h
     simp [gC0 this, gD this]
   · -- stats-ignored-name
     apply and_not_ne_true
@@ -267,20 +346,31 @@ theorem specReport_model (s : State) :
     (match statsReport s with
      | .report sc sd => specReport s.shadow sc sd
      | _ => none) = none := by
-  have h1 : grown (s.sClients.filter (fun kv => shouldCountClient s.conf.clients s.conf.leases [kv.1.qid]))
-      s.sClients = [] := grown_of_subset (fun kv h => (List.mem_filter.mp h).1)
-  have h2 : grown (s.sDomains.filter (fun kv => !Ignore.has s.conf.ignS kv.1)) s.sDomains = [] :=
+  have h1 : grown ((s.dClients ++ s.sClients).filter
+      (fun kv => shouldCountClient s.conf.fixZone s.conf.clients s.conf.leases [kv.1.qid]))
+      (s.dClients ++ s.sClients) = [] := grown_of_subset (fun kv h => (List.mem_filter.mp h).1)
+  have h2 : grown ((s.dDomains ++ s.sDomains).filter (fun kv => !Ignore.has s.conf.ignS kv.1))
+      (s.dDomains ++ s.sDomains) = [] :=
     grown_of_subset (fun kv h => (List.mem_filter.mp h).1)
-  simp [statsReport, specReport, State.shadow, h1, h2]
+  simp only [statsReport, specReport, State.shadow, h1, h2]
+  rfl
+
+/-- Storing units: the database tables are the concatenation of what the
+database and the memory unit held. -/
+theorem specDisk_model (sh : Shadow) (sc : List (Key × Nat)) (sd : List (Bytes × Nat))
+    (hc : ∀ kv ∈ sc, kv ∈ sh.sc) (hd : ∀ kv ∈ sd, kv ∈ sh.sd) :
+    specDisk sh (sh.dc ++ sh.sc) (sh.dd ++ sh.sd) sc sd = none := by
+  simp only [specDisk, grown_self, grown_of_subset hc, grown_of_subset hd]
+  rfl
 
 /-- One step of the model always passes the monitor (run on its own stores). -/
-theorem specStep_model {s : State} (hi : Inv s) (op : Op) (hv : op.valid = true) :
+theorem specStep_model {s : State} (hi : Inv s) (hz : ZoneOK s.conf) (op : Op) (hv : op.valid = true) :
     specStep s.conf s.shadow op (step s op).2 = none := by
   cases op with
   | query q =>
     have hq : validAddr q.addr := by simp [Op.valid] at hv; exact hv
     simp only [step, specStep]
-    exact specQuery_model s q hq
+    exact specQuery_model s q hq hz
   | flush => simp only [step, specStep]; exact specFlush_model s
   | qlogConf en an ign => rfl
   | statsConf en ign => rfl
@@ -298,5 +388,21 @@ theorem specStep_model {s : State} (hi : Inv s) (op : Op) (hv : op.valid = true)
     have := specReport_model s
     unfold statsReport at this ⊢
     exact this
+  | tick =>
+    simp only [step, specStep, tick]
+    exact specDisk_model s.shadow [] [] (by simp) (by simp)
+  | restart =>
+    simp only [step, specStep]
+    rw [specFlush_model s]
+    exact specDisk_model s.shadow s.sClients s.sDomains (fun _ h => h) (fun _ h => h)
+  | rotate =>
+    simp only [step]
+    by_cases hr : s.rotated = true
+    · simp only [hr, if_true]; rfl
+    · simp only [hr]
+      by_cases hf : s.file.isEmpty = true
+      · simp only [hf, if_true]; rfl
+      · simp only [hf]
+        simp [specStep, State.shadow, minus_self]
 
 end AGH.C08
